@@ -35,4 +35,9 @@ V7 == 1..7
 (* weighted voters: GHOSTs and finalized are compared, estimate is not    *)
 V5 == 1..5
 WMixed == [v \in V5 |-> IF v = 1 THEN 3 ELSE IF v = 2 THEN 2 ELSE 1]
+(* more voters than one 64-bit word of the implementation's vote bitfield holds (2 bits per voter), the weight on the *)
+(* last two (seed C20d): 32 voters of weight 1, two of weight 50                                                        *)
+V34 == 1..34
+W34 == [v \in V34 |-> IF v >= 33 THEN 50 ELSE 1]
+VHeavy == {33, 34}
 =============================================================================
